@@ -3,7 +3,7 @@
 from .. import core, tree
 
 MOD = "mc.props.c05"
-KINDS = ("node", "user", "light", "anynode", "weird")
+KINDS = ("node", "user", "light", "anynode", "weird", "eqhash", "falsy", "falsylight")
 
 
 def iterators():
@@ -61,10 +61,35 @@ def check_shape(t, shape, kinds=KINDS, hows=("topdown", "bottomup")):
                         t.c["nontrivial"] += 1
                     if len(exp["groups"]) >= 3 and max(len(g) for g in exp["groups"][1:]) >= 2:
                         t.c["zigzag_reversal_visible"] += 1
+                # iterator objects: an exhausted iterator stays exhausted; two iterator objects over the same start
+                # node do not disturb each other; a partially consumed one continues where it was
+                for name, cls in its.items():
+                    it = cls(nodes[start])
+                    first = list(it)
+                    again = list(it)
+                    t.c["iterator_reuse_checks"] += 1
+                    it1, it2 = cls(nodes[start]), cls(nodes[start])
+                    inter = []
+                    for x in it1:
+                        inter.append(x)
+                        next(it2, None)
+                        break
+                    rest = list(it1)
+                    why = None
+                    if again:
+                        why = "%s: an exhausted iterator yields nodes again" % name
+                    elif _ids(inter + rest, idm) != _ids(first, idm):
+                        why = "%s: two interleaved iterators over the same start node disturb each other" % name
+                    if why:
+                        t.violation("C05: " + why, case(shape, kind, how, start, name, exp[name], "re-use"))
                 after = tree.read_structure(nodes, idm)
                 if after != before:
                     t.violation("C05: iterating modified the tree", case(shape, kind, how, start, "*", before, after))
     t.sample({"shape": shape, "pre": m.pre(0), "post": m.post(0), "groups": m.groups(0)}, cap=2)
+
+
+def _ids(seq, idm):
+    return [idm.seq(x) if isinstance(x, tuple) else idm(x) for x in seq]
 
 
 def case(shape, kind, how, start, name, exp, got):
@@ -102,11 +127,11 @@ def run(tier):
         "traces_validated_against_impl": t.c["evaluations"],
         "evaluations": t.c["evaluations"],
         "distinct_nontrivial": t.c["nontrivial"],
-        "rule": "all ordered trees with 1..%d nodes (%d shapes) x 5 node classes (one with adversarial __eq__/__bool__/__len__) x 2 build orders x every start node x "
+        "rule": "all ordered trees with 1..%d nodes (%d shapes) x 8 node classes (plain ones and adversarial __eq__/__hash__/__bool__/__len__ ones); exhausted / interleaved iterator objects x 2 build orders x every start node x "
                 "5 iterators against orders computed from the definitions on an index model; state = (tree, start), "
                 "transition = one complete iteration; non-trivial = subtree with more than one node" % (nmax, len(shapes)),
         "bounds": {"max_nodes": nmax, "shapes": len(shapes), "assertions_on_upto": min(nmax, 6)},
     }
-    return {"tally": t, "coverage": cov, "guards": ("trees", "nontrivial", "zigzag_reversal_visible"),
+    return {"tally": t, "coverage": cov, "guards": ("trees", "nontrivial", "zigzag_reversal_visible", "iterator_reuse_checks"),
             "assumptions": ["trees up to %d nodes; every loop of the iterators is over children lists or levels, all "
                             "branch combinations occur at depth<=4 and <=3 siblings" % nmax]}
